@@ -18,6 +18,12 @@ import (
 // stand-in for the stage-duration metric written by T.Time (global metrics instance)
 func c06RecordTime(_ *testing.T, _ string, _ time.Time) {}
 
+// an error type whose Error method dereferences its receiver: the classic typed-nil pointer stored in an error
+// interface is a perfectly legal panic VALUE, and calling Error() on it panics
+type c06BrokenErr struct{ msg string }
+
+func (e *c06BrokenErr) Error() string { return e.msg }
+
 // body action opcodes
 const (
 	opNop          = iota
@@ -35,6 +41,7 @@ const (
 	opFatalf       // t.Fatalf(...)
 	opTimedFailNow // t.Time(stage, func() { t.FailNow() })
 	opTimedPanic   // t.Time(stage, func() { panic(err) })
+	opPanicNilErr  // panic(error(nil *T)): an error VALUE whose Error method itself panics (typed-nil pointer)
 	numOps
 )
 
@@ -133,6 +140,9 @@ func c06Body(t *testing.T, it int, nact int, prefix string) {
 			t.Time("stage", func() { t.FailNow() })
 		case opTimedPanic:
 			t.Time("stage", func() { panic(errors.New("panic in a timed stage")) })
+		case opPanicNilErr:
+			var e *c06BrokenErr
+			panic(error(e))
 		}
 	}
 	w.log = append(w.log, evBodyEnd+it*10000)
@@ -147,7 +157,7 @@ func c06Expect(it, nact int, prefix string) (failed bool, ncl int, completed boo
 			ncl++
 		case opFail, opError, opErrorf:
 			failed = true
-		case opFailNow, opFatal, opFatalf, opPanicErr, opPanicStr, opPanicInt, opNilDeref, opPanicNil, opTimedFailNow, opTimedPanic:
+		case opFailNow, opFatal, opFatalf, opPanicErr, opPanicStr, opPanicInt, opNilDeref, opPanicNil, opTimedFailNow, opTimedPanic, opPanicNilErr:
 			return true, ncl, false
 		}
 	}
@@ -177,7 +187,7 @@ func c06NewScenario(nact int) (*ActiveScenario, *progress.Stats) {
 }
 
 // VerifC06_IterationLifecycle: two consecutive iterations on ONE worker handle, each body an arbitrary
-// program (first body: 2 actions quick / 3 thorough; second body one action fewer) (15 opcodes: register a cleanup with one of 4 behaviours, Fail, Error, FailNow, Fatal,
+// program (first body: 2 actions quick / 3 thorough; second body one action fewer) (16 opcodes: register a cleanup with one of 4 behaviours, Fail, Error, FailNow, Fatal,
 // panic with error/string/int/nil, nil dereference), through the real ActiveScenario.Run, T.Reset, T.teardown,
 // CheckResults and handlePanic:
 //   - Run always returns normally (C07: no panic escapes to the worker)
@@ -279,7 +289,7 @@ func c06IterationLifecycle() {
 }
 
 // VerifC07_Containment: two (quick) / three (thorough) consecutive iterations on ONE worker handle, each body a single arbitrary action
-// (15 opcodes incl. every failure API and panics with error / string / int / nil / runtime error), optionally
+// (16 opcodes incl. every failure API and panics with error / string / int / nil / runtime error / an error value whose Error method panics), optionally
 // preceded by registering a cleanup with arbitrary behaviour (nop / Fail / FailNow / panic): Run returns normally
 // every time (the worker survives), each iteration is reported by its OWN outcome to both sinks, a failure raised
 // inside a cleanup neither marks the iteration failed nor leaks into the next one, and every body starts with a
